@@ -33,7 +33,7 @@ impl Sym for Inner {
 
 FUNCTIONS = ['<E as ::core::cmp::Ord>::cmp (educe expansion, enum)', '<E as ::core::cmp::PartialOrd>::partial_cmp (educe expansion, enum; both the Ord-emitted and the stand-alone handler)']
 
-VN = ['Va', 'Vb', 'Vc', 'Vd']
+VN = ['Va', 'Vb', 'Vc', 'Vd', 'Ve', 'Vf']
 
 
 def discs_of(dspec, n):
@@ -172,6 +172,10 @@ DSETS = [
     [32767, -32768, 40000],
     [4294967295, 0],
     [2147483648, -1],
+    [10, None, 3, None, 5],
+    [5, 1, None, 3],
+    [None, 7, None, 2, None],
+    [-3, None, -9, None],
 ]
 
 
@@ -230,9 +234,9 @@ def all_configs():
                 continue
             out.append((['none'] * n, r, ds))
             if r in INT_REPRS:
-                out.append((['u8', 'none', 'bool'][:n], r, ds))
-                out.append((['opt', 'pair', 'none'][:n], r, ds))
-                out.append((['none', 'inner', 'nz'][:n], r, ds))
+                out.append(((['u8', 'none', 'bool'] * 2)[:n], r, ds))
+                out.append(((['opt', 'pair', 'none'] * 2)[:n], r, ds))
+                out.append(((['none', 'inner', 'nz'] * 2)[:n], r, ds))
     return out
 
 
@@ -250,7 +254,8 @@ def quick_configs(seed):
             (['pair', 'none', 'bool'], None, None), (['tup', 'u8x2n'], None, None), (['u8x2n'], None, None), (['u64', 'none'], None, None),
             (['none', 'none'], 'C', None), (['u8', 'none'], 'C', None), (['u8', 'u32'], 'C, u8', None), (['bool', 'none'], 'u16', None),
             (['none', 'none', 'none'], 'isize', [-1, None, None]), (['none', 'none'], None, [256, 1]), (['none', 'none'], None, [65535, 2]),
-            (['none', 'none', 'none'], None, [32767, -32768, 40000]), (['none', 'none'], 'u32', [4294967295, 0]), (['none', 'none'], None, [2147483648, -1]),
+            (['none', 'none', 'none'], None, [32767, -32768, 40000]), (['none'] * 5, None, [10, None, 3, None, 5]), (['none'] * 4, None, [5, 1, None, 3]),
+            (['u8', 'none', 'bool', 'none', 'u8'], 'i16', [None, 7, None, 2, None]), (['none'] * 4, 'i8', [-3, None, -9, None]), (['none', 'none'], 'u32', [4294967295, 0]), (['none', 'none'], None, [2147483648, -1]),
             (['opt', 'opt'], None, None), (['bool', 'bool'], None, None), (['char', 'char', 'none'], None, None), (['none', 'none', 'none'], None, [2, 1, 0])]
     for w in want:
         core.append(w)
@@ -281,7 +286,7 @@ def gen(tier, seed):
 RULE = ('one config = one enum definition (payload types x repr x explicit discriminants) x deriving mode {Ord+PartialOrd educed, stand-alone PartialOrd, Ord educed with hand-written PartialOrd}; '
         'inside a config both values (variant and payload) and the 4 neighbour bytes behind each value are arbitrary; CBMC pointer checks are on, so an out-of-bounds tag read fails even when the answer is right. '
         'Non-trivial = harness passed and the Less/Equal/Greater/different-variant witnesses that the config admits were all SATISFIED.')
-BOUNDS = dict(max_variants=3, payload_types=sorted(PAYLOADS.keys()), reprs=['none', 'u8', 'i8', 'u16', 'i16', 'i32', 'u32', 'i64', 'u64', 'isize', 'usize', 'C', 'C, u8'],
+BOUNDS = dict(max_variants='3 (5 for the non-ascending explicit/implicit discriminant sets)', payload_types=sorted(PAYLOADS.keys()), reprs=['none', 'u8', 'i8', 'u16', 'i16', 'i32', 'u32', 'i64', 'u64', 'isize', 'usize', 'C', 'C, u8'],
               discriminant_sets=[str(d) for d in DSETS], neighbour_bytes=4,
               constant_expression_discriminants=[str(x) for x in EXPR_DSETS],
               outside=['payload types outside the list', 'repr(packed)/repr(align)', 'targets other than x86_64', 'discriminant expressions outside the listed ones'])
